@@ -10,8 +10,86 @@ import (
 	"strconv"
 	"strings"
 
+	"encoding/xml"
+
+	"mellium.im/xmpp/stanza"
+	"mellium.im/xmpp/stream"
+
 	"verifharness/c05"
+	"verifharness/common"
 )
+
+// probeSizes: byte lengths of the text the decoders are probed with.
+var probeSizes = []int{0, 1, 255, 256, 257, 1023, 1024, 1025, 4095, 4096, 4097, 65535, 65536, 65537, 1 << 20}
+
+// textSizeProbe: for every size n, a stanza error and a stream error with an n-byte text are
+// encoded (standard marshaller) and decoded again; the table holds (n, bytes decoded by
+// stanza.Error, bytes decoded by stream.Error); -1 = error or panic.
+func textSizeProbe() string {
+	var rows []string
+	for _, n := range probeSizes {
+		t := strings.Repeat("x", n)
+		a, b := -1, -1
+		common.Recover(func() {
+			e := stanza.Error{Type: stanza.Cancel, Condition: stanza.Conflict, Text: map[string]string{"en": t}}
+			if bs, err := xml.Marshal(e); err == nil {
+				var out stanza.Error
+				if xml.Unmarshal(bs, &out) == nil {
+					a = len(out.Text["en"])
+				}
+			}
+		})
+		common.Recover(func() {
+			e := stream.Error{Err: "conflict", Text: []struct{ Lang, Value string }{{"en", t}}}
+			if bs, err := xml.Marshal(e); err == nil {
+				var out stream.Error
+				if xml.Unmarshal(bs, &out) == nil {
+					b = 0
+					if len(out.Text) == 1 {
+						b = len(out.Text[0].Value)
+					}
+				}
+			}
+		})
+		rows = append(rows, fmt.Sprintf("(%d, %d, %d)", n, a, b))
+	}
+	return fmt.Sprintf("def textSizeProbe : Option (List (Nat × Int × Int)) := some [%s]\n", strings.Join(rows, ", "))
+}
+
+// probeSpaces: namespaces an <error/> child of an error stanza is probed in.
+var probeSpaces = []string{"", "jabber:client", "jabber:server", "jabber:component:accept", "jabber:component:connect", "urn:other"}
+
+// errorNsProbe: stanza.UnmarshalError on <iq type='error'> … <error type='cancel'><conflict/></error></iq>
+// with the <error/> element in each namespace of probeSpaces (what a reply looks like after it
+// travelled over a stream with that content namespace), and on an element that is not called
+// error: "ok" (found, condition decoded), "missing", "bad".
+func errorNsProbe() string {
+	probe := func(name xml.Name) string {
+		st := xml.StartElement{Name: name, Attr: []xml.Attr{{Name: xml.Name{Local: "type"}, Value: "cancel"}}}
+		cond := xml.StartElement{Name: xml.Name{Space: stanza.NSError, Local: "conflict"}}
+		toks := []xml.Token{xml.CharData("\n"), st, cond, cond.End(), st.End(), xml.EndElement{Name: xml.Name{Space: name.Space, Local: "iq"}}}
+		res := "bad"
+		if p := common.Recover(func() {
+			v, err := stanza.UnmarshalError(&sliceReader{t: toks})
+			switch {
+			case err != nil && strings.Contains(err.Error(), "expected error payload"):
+				res = "missing"
+			case err == nil && v.Condition == stanza.Conflict && v.Type == stanza.Cancel:
+				res = "ok"
+			}
+		}); p != "" {
+			res = "panic"
+		}
+		return res
+	}
+	var rows []string
+	for _, sp := range probeSpaces {
+		rows = append(rows, fmt.Sprintf("(%q, %q, %q)", sp, probe(xml.Name{Space: sp, Local: "error"}), probe(xml.Name{Space: sp, Local: "failure"})))
+	}
+	return fmt.Sprintf("def errorNsProbe : Option (List (String × String × String)) := some [%s]\n", strings.Join(rows, ", "))
+}
+
+
 
 // typedConsts returns the string values of the constants declared with the
 // given type in a file, in source order.
@@ -199,6 +277,10 @@ func Facts(repo string) (string, error) {
 	} else {
 		fmt.Fprintf(&sb, "def marshalGlobals : Option (List String) := some [%s]\n", strings.Join(mg, ", "))
 	}
+	// probe facts: the REAL codecs evaluated on a finite domain (survive any refactoring of the
+	// code, break when its behaviour changes)
+	sb.WriteString(textSizeProbe())
+	sb.WriteString(errorNsProbe())
 	sb.WriteString("\nend XmppModel.Generated.C13\n")
 	return sb.String(), nil
 }
